@@ -67,6 +67,8 @@ def mc_case(draw):
     scn["n_exchange"] = max(scn.get("n_exchange", 0), 1)
     scn["table"] = [[draw(st.integers(1, 3)), draw(fl(0.1, 3.0)), 0] for _ in scn["entries"]]
     scn["table"][0][0] = 1
+    scn["calc"] = "fast"
+    scn["names"] = draw(st.permutations(["zeta", "alpha", "mid", "beta"]).map(lambda p: list(p)[: len(scn["entries"])]))
     return {"scn": scn, "steps": draw(st.integers(3, 12)), "g1": draw(st.integers(0, 2 ** 32 - 1)), "g2": draw(st.integers(0, 2 ** 32 - 1))}
 
 
@@ -105,6 +107,11 @@ def compare_runs(run, case, seed, labels, key):
         # a crash here belongs to another property's subject; it is not a reproducibility verdict
         return {"labels": labels + ["raised:" + type(exc).__name__], "nontrivial": False, "violation": None, "discard": True}
     nontrivial = len({r[:3] for r in a}) >= 2
+    # 'different seeds differ' is only meaningful when a continuous random quantity entered the trajectory:
+    # some record holds an atom position that is not one of the initial positions, or another cell
+    # (a run that only deletes the initial particles is the same for every seed)
+    rows0 = {tuple(x) for x in np.frombuffer(a[0][0], dtype=float).reshape(-1, 3).tolist()} if a else set()
+    seed_sensitive = any(r[1] != a[0][1] or any(tuple(x) not in rows0 for x in np.frombuffer(r[0], dtype=float).reshape(-1, 3).tolist()) for r in a)
     out = {"labels": labels + (["moving"] if nontrivial else ["static"]), "nontrivial": nontrivial, "key": key, "violation": None}
     if len(a) != len(b):
         out["violation"] = {"kind": "same-seed-differs:length", "detail": f"seed {seed}: runs recorded {len(a)} vs {len(b)} steps"}
@@ -118,7 +125,7 @@ def compare_runs(run, case, seed, labels, key):
     if ta != tb:
         out["violation"] = {"kind": "same-seed-differs:log", "detail": f"seed {seed}: log files differ between two runs with the same seed"}
         return out
-    if nontrivial:
+    if nontrivial and seed_sensitive:
         try:
             c, _tc = run(case, seed + 1, case["g1"], False)
         except Exception:
